@@ -194,6 +194,10 @@ func (h *header) decode(src []byte) (int, error) {
 	mtype := h.Type()
 	//mtype := MessageType(0)
 
+	if len(src) < 2 {
+		return total, fmt.Errorf("header/Decode: Insufficient buffer size. Expecting at least %d, got %d", 2, len(src))
+	}
+
 	h.mtypeflags = src[total : total+1]
 	//mtype := MessageType(src[total] >> 4)
 	if !h.Type().Valid() {
@@ -216,6 +220,9 @@ func (h *header) decode(src []byte) (int, error) {
 	total++
 
 	remlen, m := binary.Uvarint(src[total:])
+	if m <= 0 || m > maxFixedHeaderLength-1 || remlen > uint64(maxRemainingLength) {
+		return total, fmt.Errorf("header/Decode: Malformed or incomplete remaining length")
+	}
 	total += m
 	h.remlen = int32(remlen)
 
